@@ -4,6 +4,7 @@ mod cdial;
 mod dialplan;
 mod addrbook;
 mod guard;
+mod derive;
 mod notify;
 mod proto;
 
@@ -14,6 +15,7 @@ fn main() {
         "dialplan" => dialplan::main(&a),
         "cdial" => cdial::main(&a),
         "notify" => notify::main(&a),
+        "derive" => derive::main(&a),
         "guard" => guard::main(&a),
         "addr" => addrbook::main(&a),
         "proto" => proto::main(&a),
